@@ -24,6 +24,17 @@ def build(name_prefix, n, bases, root):
     return cls
 
 
+def build_one(name_prefix, i, bases, cls, root):
+    bs = sorted(bases[i], reverse=True)
+    for perm in ([bs] + [list(p) for p in itertools.permutations(bs)][:24]):
+        try:
+            return type('%s%d' % (name_prefix, i), tuple(cls[b] for b in perm) or (root,),
+                        {'process': lambda self, dt=1: None} if root is not object else {})
+        except TypeError:
+            continue
+    return None
+
+
 class TypeQueriesAdapter:
     def __init__(self, desper, n):
         self.desper = desper
@@ -32,22 +43,48 @@ class TypeQueriesAdapter:
         self.built = 0
 
     def reset(self, init):
+        """Classes 1..N-1 exist from the start; class N (possibly a subclass of them) is defined only after a first
+        round of queries, and its instance is attached through create_entity - the way a plugin or a lazily
+        imported module behaves.  Components are attached alternately through create_entity and add_component."""
         bases = {i: set(b) for i, b in fmap(init['bases']).items()}
-        for i in range(1, self.n + 1):
+        n = self.n
+        for i in range(1, n + 1):
             bases.setdefault(i, set())
         self.skip = False
-        self.C = build('K', self.n, bases, object)
-        self.P = build('P', self.n, bases, self.desper.Processor)
-        if self.C is None or self.P is None:
+        C = build('K', n - 1, bases, object)
+        P = build('P', n - 1, bases, self.desper.Processor)
+        if C is None or P is None:
             self.skip = True
             self.rejected += 1
             return
-        self.built += 1
         w = self.w = self.desper.World()
-        for i in sorted(init['comps']):
-            w.add_component(1, self.C[i]())
-        for i in sorted(init['procs']):
-            w.add_processor(self.P[i]())
+        self.counter = getattr(self, 'counter', 0) + 1
+        for k, i in enumerate(sorted(x for x in init['comps'] if x < n)):
+            if (k + self.counter) % 2:
+                w.add_component(1, C[i]())
+            else:
+                w.create_entity(C[i](), entity_id=1)
+        for i in sorted(x for x in init['procs'] if x < n):
+            w.add_processor(P[i]())
+        for cls in C.values():          # a first round of queries before the last class exists
+            w.get(cls)
+            w.get_component(1, cls)
+            w.has_component(1, cls)
+        for cls in P.values():
+            w.get_processor(cls)
+        lastC = build_one('K', n, bases, C, object)
+        lastP = build_one('P', n, bases, P, self.desper.Processor)
+        if lastC is None or lastP is None:
+            self.skip = True
+            self.rejected += 1
+            return
+        C[n], P[n] = lastC, lastP
+        if n in init['comps']:
+            w.create_entity(C[n](), entity_id=1)
+        if n in init['procs']:
+            w.add_processor(P[n]())
+        self.C, self.P = C, P
+        self.built += 1
         self.cn = {c: i for i, c in self.C.items()}
         self.pn = {c: i for i, c in self.P.items()}
 
